@@ -9,7 +9,8 @@ P_auto  == [dvs |-> {"d3"}, ces |-> {"c5"}]
 P_auto2 == [dvs |-> {"d4", "d1"}, ces |-> {"c6", "c7"}]
 P_auto3 == [dvs |-> {"d3"}, ces |-> {"c5", "c8"}]
 P_all   == [dvs |-> DV, ces |-> CE]
-GenProfiles == {P_lazy, P_comp, P_pre, P_q, P_auto, P_auto2, P_auto3, P_all}
+P_chain == [dvs |-> {"d1"}, ces |-> {"c7", "c9"}]
+GenProfiles == {P_lazy, P_comp, P_pre, P_q, P_auto, P_auto2, P_auto3, P_chain, P_all}
 GenDev == {}
 
 Weight(a) == CASE a.a \in {"Realize", "AdvanceSys"} -> 100
